@@ -128,9 +128,11 @@ PROFILES = {
                              weights=W(map=5, mapto=1, filter=3, filteropt=1, merge=6, orelse=2, snapshot=3, snapshot1=1, snapshotn=1.5, gate=2, once=2,
                                        hold=1.5, mapc=0.5, lift2=0.5, liftn=0, accum=0.5, collect=0.3, value=0.3, updates=1))),
             ("streams-intxn", dict(n_defs=(3, 10), intxn_defs=0.5, self_merge=True, weights=W(once=3, merge=6, gate=2)))],
+    "C03": [("diamonds", dict(n_defs=(6, 16), sends_per_txn=(2, 4), samples=0.3, wfchecks=0.5, intxn_defs=0.3, n_listen=(2, 5),
+                              weights=W(lift2=6, liftn=2, merge=6, snapshot=3, mapc=3, map=3, csink=4, ssink=4, hold=2, switchs=1, switchc=1, sloop=0.7, cloop=0.7)))],
     "C04": [("cells", dict(samples=0.9, n_txn=(5, 20), intxn_defs=0.3, n_listen=(0, 2),
                            weights=W(hold=4, holdlazy=1.5, accum=3, collect=3, snapshot=4, csink=3, gate=1.5, mapc=1, lift2=1)))],
-    "C05": [("switch-defer", dict(n_defs=(5, 11), sends_per_txn=(1, 4), max_defer=2, samples=0.3,
+    "C05": [("switch-defer", dict(n_defs=(5, 11), sends_per_txn=(1, 4), max_defer=2, samples=0.3, wfchecks=0.3,
                                   weights=W(switchs=6, switchc=2, defer=5, split=1, csink=4, ssink=3, map=2, hold=2, merge=2))),
             ("switch", dict(n_defs=(5, 12), samples=0.5, intxn_defs=0.2, sends_per_txn=(1, 4),
                             weights=W(switchs=4, switchc=4, csink=4, hold=3, ssink=4, lift2=1, accum=1)))],
@@ -148,7 +150,9 @@ PROFILES = {
     "C18": [("router", dict(n_defs=(4, 10), drops=0.3, gcs=0.3, weights=W(router=5, ssink=4, map=3, merge=3, hold=1)))],
     "C06": [("drops", dict(drops=0.8, gcs=0.5, memchecks=0.5, n_defs=(5, 14), n_txn=(4, 12),
                            weights=W(sloop=1.5, cloop=1.5, accum=2, collect=2, switchs=1.5, switchc=1, router=1, defer=1, lift2=2, hold=3, snapshot=3)))],
-    "C07": [("abandon", dict(leakcheck=True, drops=0.4, gcs=0.3, memchecks=0.3, n_txn=(0, 6), unlisten=0.3, no_switchc_in_loop=True,
+    "C07": [("abandon-once-loops", dict(leakcheck=True, n_defs=(3, 8), n_txn=(1, 5), unlisten=0.2, no_switchc_in_loop=True,
+                                        weights=W(sloop=5, cloop=2, once=5, snapshot=5, hold=4, accum=1.5, merge=2, map=1, ssink=3, csink=1))),
+            ("abandon", dict(leakcheck=True, drops=0.4, gcs=0.3, memchecks=0.3, n_txn=(0, 6), unlisten=0.3, no_switchc_in_loop=True,
                              weights=W(sloop=1.5, cloop=1.5, accum=2, collect=2, switchs=1.5, switchc=1, router=1, defer=1, split=0.5, lift2=2, hold=3, snapshot=3, mapc=2)))],
     "C09": [("switch-defer", dict(n_defs=(5, 11), sends_per_txn=(1, 4), max_defer=2, samples=0.3,
                                   weights=W(switchs=6, switchc=2, defer=5, split=1, csink=4, ssink=3, map=2, hold=2, merge=2, once=1))),
@@ -197,6 +201,7 @@ def impl_predicates(pid, script, hl):
             return f"line {j}: the library panics: {h}"
     for j, h in enumerate(hl):
         if h.startswith("mem=BAD"): return f"line {j}: collector contract violated on the real graph: {h}"
+        if h.startswith("wf=BAD"): return f"line {j}: the real node graph violates the scheduler theorem's hypotheses: {h}"
     if pid in ("C07",):
         for j, h in enumerate(hl):
             if h.startswith("leak=") and h != "leak=0": return f"line {j}: {h} nodes alive after everything was dropped and collected"
